@@ -172,13 +172,15 @@ func (a sortableNodeArray) compare(lhs *CandidateNode, rhs *CandidateNode, dateT
 		}
 		return 0
 	} else if (lhsTag == "!!int" || lhsTag == "!!float") && (rhsTag == "!!int" || rhsTag == "!!float") {
-		lhsNum, err := strconv.ParseFloat(lhs.Value, 64)
+		lhsNum, err := parseNumberForSort(lhsTag, lhs.Value)
 		if err != nil {
-			panic(err)
+			log.Warningf("Could not parse number %v for sort, sorting by string instead: %v", lhs.Value, err)
+			return strings.Compare(lhs.Value, rhs.Value)
 		}
-		rhsNum, err := strconv.ParseFloat(rhs.Value, 64)
+		rhsNum, err := parseNumberForSort(rhsTag, rhs.Value)
 		if err != nil {
-			panic(err)
+			log.Warningf("Could not parse number %v for sort, sorting by string instead: %v", rhs.Value, err)
+			return strings.Compare(lhs.Value, rhs.Value)
 		}
 		if lhsNum == rhsNum {
 			return 0
@@ -190,4 +192,15 @@ func (a sortableNodeArray) compare(lhs *CandidateNode, rhs *CandidateNode, dateT
 	}
 
 	return strings.Compare(lhs.Value, rhs.Value)
+}
+
+// integers may be spelt in hex or octal (0x10, 0o7), which ParseFloat does not read
+func parseNumberForSort(tag string, value string) (float64, error) {
+	if tag == "!!int" {
+		_, num, err := parseInt64(value)
+		if err == nil {
+			return float64(num), nil
+		}
+	}
+	return strconv.ParseFloat(value, 64)
 }
